@@ -749,6 +749,168 @@ theorem nucStep_computed (q : StepIn α) (prev : NucSlice α) (dG : α) (betaOf 
   simp only [nucStep, not_lt.mpr h, if_false, hnz, if_true, nucComputed]
   trivial
 
+
+/-! ### incubationTimeNonIsothermal ≥ 0 -/
+
+theorem firstSignChange_cons2 (d0 d1 : α) (ds : List α) (j : Nat) :
+    firstSignChange (d0 :: d1 :: ds) j
+      = if sgn d0 ≠ sgn d1 then some j else firstSignChange (d1 :: ds) (j + 1) := by
+  simp only [firstSignChange]
+
+theorem firstSignChange_some (d : List α) : ∀ (j i : Nat), firstSignChange d j = some i →
+    j ≤ i ∧ i + 2 ≤ j + d.length := by
+  induction d with
+  | nil => intro j i h; simp [firstSignChange] at h
+  | cons d0 ds ih =>
+    intro j i h
+    cases ds with
+    | nil => simp [firstSignChange] at h
+    | cons d1 ds' =>
+      rw [firstSignChange_cons2] at h
+      split at h
+      · cases h; simp only [List.length_cons]; omega
+      · have := ih (j + 1) i h
+        simp only [List.length_cons] at this ⊢; omega
+
+theorem firstSignChange_none (d : List α) : ∀ (j : Nat), firstSignChange d j = none →
+    ∀ x ∈ d, sgn x = sgn (d.headD 0) := by
+  induction d with
+  | nil => intro j h x hx; simp at hx
+  | cons d0 ds ih =>
+    intro j h x hx
+    cases ds with
+    | nil => simp only [List.mem_singleton] at hx; subst hx; rfl
+    | cons d1 ds' =>
+      rw [firstSignChange_cons2] at h
+      split at h
+      · cases h
+      · next hs =>
+        have hs' : sgn d0 = sgn d1 := not_not.mp hs
+        rcases List.mem_cons.mp hx with rfl | hx'
+        · rfl
+        · have := ih (j + 1) h x hx'
+          simp only [List.headD_cons] at this ⊢
+          rw [this, hs']
+
+theorem sgn_nonpos (x y : α) (hx : ¬ 0 < x) (h : sgn y = sgn x) : y ≤ 0 := by
+  by_contra hy
+  have hy' : 0 < y := not_le.mp hy
+  have : sgn y = 1 := by simp [sgn, hy', not_lt.mpr hy'.le]
+  rw [this] at h
+  unfold sgn at h
+  split at h
+  · omega
+  · simp [hx] at h
+
+theorem zipWith_getLast (f : α → α → α) : ∀ (a b : List α), a.length = b.length → a ≠ [] →
+    (List.zipWith f a b).getLast?.getD 0 = f (a.getLast?.getD 0) (b.getLast?.getD 0) := by
+  intro a
+  induction a with
+  | nil => intro b _ h; exact absurd rfl h
+  | cons x xs ih =>
+    intro b hl _
+    cases b with
+    | nil => simp at hl
+    | cons y ys =>
+      cases xs with
+      | nil =>
+        cases ys with
+        | nil => simp
+        | cons _ _ => simp at hl
+      | cons x' xs' =>
+        cases ys with
+        | nil => simp at hl
+        | cons y' ys' =>
+          have := ih (y' :: ys') (by simpa using hl) (by simp)
+          simpa [List.zipWith, List.getLast?_cons_cons] using this
+
+theorem stepArea_length : ∀ (bs ts : List α), bs.length = ts.length → (stepArea bs ts).length = ts.length - 1 := by
+  intro bs
+  induction bs with
+  | nil =>
+    intro ts h
+    cases ts with
+    | nil => rfl
+    | cons t ts => simp at h
+  | cons b bs ih =>
+    intro ts h
+    cases ts with
+    | nil => simp at h
+    | cons t ts =>
+      cases bs with
+      | nil =>
+        cases ts with
+        | nil => rfl
+        | cons t1 ts' => simp at h
+      | cons b1 bs' =>
+        cases ts with
+        | nil => simp at h
+        | cons t1 ts' =>
+          have := ih (t1 :: ts') (by simpa using h)
+          simp only [stepArea, List.length_cons] at this ⊢
+          omega
+
+theorem cumsum_length : ∀ (xs : List α) (acc : α), (cumsum acc xs).length = xs.length := by
+  intro xs
+  induction xs with
+  | nil => intro acc; rfl
+  | cons x xs ih => intro acc; simp [cumsum, ih]
+
+/-- **non-isothermal incubation time is non-negative**: positive current impingement rate, times
+non-decreasing, current time not before the first time, the three histories of equal length ≥ 1 -/
+theorem tauNonIso_nonneg (θ Z cβ cT cTemp : α) (betas times temps : List α)
+    (hβ : 0 < cβ) (hlen1 : betas.length = times.length) (hlen2 : temps.length = times.length)
+    (hne : times ≠ [])
+    (hsort : ∀ i, i < times.length → times.headD 0 ≤ times.getD i 0)
+    (hcur : times.headD 0 ≤ cT) :
+    0 ≤ tauNonIso θ Z cβ cT cTemp betas times temps := by
+  unfold tauNonIso
+  simp only
+  have hpos : 0 < times.length := List.length_pos_iff.mpr hne
+  have hlhsLen : (niLhs θ Z cTemp temps).length = times.length := by simp [niLhs, hlen2]
+  have hcsLen : (cumsum 0 (stepArea betas times)).length = times.length - 1 := by
+    rw [cumsum_length, stepArea_length betas times hlen1]
+  have hrhsLen : (niRhs cβ cT (times.headD 0) times (cumsum 0 (stepArea betas times))).length = times.length := by
+    unfold niRhs
+    cases hl : (cumsum 0 (stepArea betas times)).getLast? with
+    | none => simp
+    | some l =>
+      simp only [List.length_append, List.length_singleton, hcsLen]
+      omega
+  generalize niLhs θ Z cTemp temps = lhs at hlhsLen ⊢
+  generalize niRhs cβ cT (times.headD 0) times (cumsum 0 (stepArea betas times)) = rhs at hrhsLen ⊢
+  have hrhsne : rhs ≠ [] := by
+    intro h; rw [h] at hrhsLen; simp at hrhsLen; omega
+  unfold niPick
+  simp only
+  have hdiffLen : (List.zipWith (fun r l => r - l) rhs lhs).length = times.length := by
+    simp [hrhsLen, hlhsLen]
+  have hlast : (List.zipWith (fun r l => r - l) rhs lhs).getLast?.getD 0 = rhs.getLast?.getD 0 - lhs.getLast?.getD 0 :=
+    zipWith_getLast _ rhs lhs (by rw [hrhsLen, hlhsLen]) hrhsne
+  generalize List.zipWith (fun r l => r - l) rhs lhs = diff at hdiffLen hlast ⊢
+  cases hfs : firstSignChange diff 0 with
+  | some i =>
+    have := firstSignChange_some diff 0 i hfs
+    have hi : i < times.length := by omega
+    have := hsort i hi
+    simp only
+    linarith
+  | none =>
+    simp only
+    split
+    · exact le_refl _
+    · next hh =>
+      have hall := firstSignChange_none diff 0 hfs
+      have hdne : diff ≠ [] := by
+        intro h; rw [h] at hdiffLen; simp at hdiffLen; omega
+      have hmem : diff.getLast?.getD 0 ∈ diff := by
+        rw [List.getLast?_eq_getLast_of_ne_nil hdne]; simp [List.getLast_mem]
+      have hle : diff.getLast?.getD 0 ≤ 0 := sgn_nonpos _ _ hh (hall _ hmem)
+      rw [hlast] at hle
+      have h1 : 0 ≤ (lhs.getLast?.getD 0 - rhs.getLast?.getD 0) / cβ := div_nonneg (by linarith) hβ.le
+      have : lhs.getLast?.getD 0 / cβ - rhs.getLast?.getD 0 / cβ = (lhs.getLast?.getD 0 - rhs.getLast?.getD 0) / cβ := by ring
+      linarith
+
 end field
 
 /-! ## real numbers: the transcendental atoms are Mathlib's functions -/
